@@ -522,7 +522,7 @@ Proof.
 Qed.
 
 Definition is_reg (o : op) : Prop :=
-  match o with RegIn _ _ _ | RegOut _ _ _ | RegEv _ _ _ => True | _ => False end.
+  match o with RegIn _ _ _ | RegOut _ _ _ _ | RegEv _ _ _ => True | _ => False end.
 
 Lemma reg_ops_keep cfg pre : forall s,
   Forall is_reg pre -> pools_ok s -> not_logged s ->
